@@ -4,6 +4,10 @@ import os
 
 KINDS = ["fn", "fn", "fn", "fnerr", "bind", "value", "ivalue", "struct", "arg", "fieldsof"]
 
+# wire.Value of a package-level constant: (type as consumers see it, declaration, printed value)
+CONSTS = [("uint16", "const k%d uint16 = 8080", "8080"), ("int64", "const k%d int64 = 1 << 40", "1099511627776"), ("float32", "const k%d float32 = 1.5", "1.5"),
+          ("rune", "const k%d rune = 'x'", "120"), ("Port", "const k%d Port = 443", "443"), ("int", "const k%d = 7", "7"), ("uint8", "const k%d byte = 9", "9")]
+
 def gen_cfg(rng, profile="faithful"):
     """a tree-shaped dependency structure below the root type T0.
     profile 'faithful': only forms the migration is meant to preserve (constructors literally named New<T>, pointer
@@ -38,6 +42,11 @@ def gen_cfg(rng, profile="faithful"):
             nd.pop("second_iface", None)
         nodes[parent]["deps"].append(i)
         nodes.append(nd)
+    # some values are package-level constants of predeclared / defined types (each type at most once per configuration)
+    free = list(range(len(CONSTS)))
+    for nd in nodes:
+        if nd["kind"] == "value" and free and rng.chance(0.5):
+            nd["const"] = free.pop(rng.randint(0, len(free) - 1))
     # a shared dependency now and then (DAG, not only a tree): only onto fn-like leaves
     for nd in nodes:
         if nd["kind"] in ("fn", "fnerr") and rng.chance(0.25):
@@ -89,7 +98,7 @@ def ctype(nd):
     if k in ("bind", "ivalue"):
         return "I%d" % i
     if k == "value":
-        return "T%d" % i
+        return CONSTS[nd["const"]][0] if "const" in nd else "T%d" % i
     if k == "struct":
         return ("*T%d" if nd.get("form", "ptr") == "ptr" else "T%d") % i
     if k == "arg" and nd.get("form") == "value":
@@ -102,7 +111,11 @@ def term_expr(nd, var):
 def render(cfg, pkgname):
     """returns {filename: source}: types + providers (shared), wire.go files (wireinject tag)"""
     N = cfg["nodes"]
-    src = ["package %s" % pkgname, "", 'import "e2e/rt"', ""]
+    src = ["package %s" % pkgname, "", 'import (', '\t"fmt"', "", '\t"e2e/rt"', ")", "", "var _ = fmt.Sprint", "", "type Port int", ""]
+    def argterm(d, var):
+        if "const" in N[d]:
+            return 'fmt.Sprintf("K%d=%%v", %s)' % (d, var)
+        return var + ".Term()"
     needs_err = any(nd["err"] for nd in N if nd["kind"] in ("fn", "fnerr", "bind"))
     for nd in N:
         i = nd["id"]
@@ -114,7 +127,7 @@ def render(cfg, pkgname):
         else:
             src.append("type T%d struct { t string }" % i)
         if nd["kind"] == "struct":
-            terms = ' + "," + '.join("x.F%d.Term()" % d for d in nd["deps"]) or '""'
+            terms = ' + "," + '.join(argterm(d, "x.F%d" % d) for d in nd["deps"]) or '""'
             src.append('func (x T%d) Term() string { return "S%d{" + %s + "}" }' % (i, i, terms))
         else:
             src.append("func (x T%d) Term() string { return x.t }" % i)
@@ -140,7 +153,7 @@ def render(cfg, pkgname):
         i = nd["id"]
         if nd["kind"] in ("fn", "fnerr", "bind"):
             params = ", ".join((["s%d T%d" % (i, i)] if nd.get("selfarg") else []) + ["a%d %s" % (d, ctype(N[d])) for d in nd["deps"]] + ["j%d J%d" % (d, d) for d in nd["deps"] if N[d].get("second_iface")])
-            args = ' + "," + '.join("a%d.Term()" % d for d in nd["deps"]) or '""'
+            args = ' + "," + '.join(argterm(d, "a%d" % d) for d in nd["deps"]) or '""'
             ret = "(*T%d, error)" % i if nd["err"] else "*T%d" % i
             body = 'rt.Enter("%s"); ' % fname(nd)
             if nd["err"]:
@@ -151,6 +164,8 @@ def render(cfg, pkgname):
                 src.append('func NewT%d(s string, n int) *T%d { rt.Enter("DecoyNewT%d"); return &T%d{t: "DECOY%d"} }' % (i, i, i, i, i))
         if nd["kind"] == "ivalue":
             src.append('var iv%d = &T%d{t: "IV%d"}' % (i, i, i))
+        if "const" in nd:
+            src.append(CONSTS[nd["const"]][1] % i)
         if nd.get("helper"):
             src.append("type H%d struct{}" % i)
             src.append('func HelpT%d(v T%d) *H%d { rt.Enter("HelpT%d"); return &H%d{} }' % (i, i, i, i, i))
@@ -164,7 +179,7 @@ def render(cfg, pkgname):
         if k == "bind":
             return [fname(nd), "wire.Bind(new(I%d), new(*T%d))" % (i, i)] + (["wire.Bind(new(J%d), new(*T%d))" % (i, i)] if nd.get("second_iface") else [])
         if k == "value":
-            return ['wire.Value(T%d{t: "V%d"})' % (i, i)]
+            return ['wire.Value(k%d)' % i] if "const" in nd else ['wire.Value(T%d{t: "V%d"})' % (i, i)]
         if k == "ivalue":
             return ["wire.InterfaceValue(new(I%d), iv%d)" % (i, i)]
         if k == "struct":
@@ -276,7 +291,7 @@ def expected_term(cfg, root=0):
         if k in ("fn", "fnerr", "bind"):
             return "P%d(%s)" % (i, ",".join(term(d) for d in nd["deps"]))
         if k == "value":
-            return "V%d" % i
+            return "K%d=%s" % (i, CONSTS[nd["const"]][2]) if "const" in nd else "V%d" % i
         if k == "ivalue":
             return "IV%d" % i
         if k == "struct":
@@ -290,7 +305,7 @@ def expected_term(cfg, root=0):
 def describe(cfg):
     N = cfg["nodes"]
     return " ".join("%d:%s%s%s(%s)" % (nd["id"], nd["kind"], "" if nd["name_style"] == "New" else "/" + nd["name_style"],
-                                        ("/value" if nd.get("form") == "value" else "") + ("/apart" if nd.get("apart") else "") + ("/2ifaces" if nd.get("second_iface") else "") + ("/selfarg" if nd.get("selfarg") else "") + ("/helper" if nd.get("helper") else ""), ",".join(map(str, nd["deps"]))) for nd in N) + \
+                                        ("/value" if nd.get("form") == "value" else "") + ("/const-%s" % CONSTS[nd["const"]][0] if "const" in nd else "") + ("/apart" if nd.get("apart") else "") + ("/2ifaces" if nd.get("second_iface") else "") + ("/selfarg" if nd.get("selfarg") else "") + ("/helper" if nd.get("helper") else ""), ",".join(map(str, nd["deps"]))) for nd in N) + \
         " layout=%d files=%d" % (cfg["set_layout"], cfg["nfiles"]) + \
         ("" if cfg.get("second") is None else " second=%d%s" % (cfg["second"], "(first)" if cfg.get("second_first") else ""))
 
